@@ -592,13 +592,13 @@ impl BuiltInFunction {
                     unreachable!()
                 };
 
-                let s = if s.starts_with("0x") {
-                    s.get(2..).unwrap_or_default()
+                let parsed = if let Some(hex) = s.strip_prefix("0x") {
+                    i32::from_str_radix(hex, 16)
                 } else {
-                    s
+                    s.parse::<i32>()
                 };
 
-                if let Ok(num) = s.parse::<i32>() {
+                if let Ok(num) = parsed {
                     Ok((
                         Some(Primitive::Int(num)),
                         None,
@@ -612,13 +612,13 @@ impl BuiltInFunction {
                     unreachable!()
                 };
 
-                let s = if s.starts_with("0x") {
-                    s.get(2..).unwrap_or_default()
+                let parsed = if let Some(hex) = s.strip_prefix("0x") {
+                    i128::from_str_radix(hex, 16)
                 } else {
-                    s
+                    s.parse::<i128>()
                 };
 
-                if let Ok(num) = s.parse::<i128>() {
+                if let Ok(num) = parsed {
                     Ok((
                         Some(Primitive::BigInt(num)),
                         None,
